@@ -263,6 +263,11 @@ func (p *Program) pathDef(fn *Func, id *ast.Ident, obj types.Object, depth int) 
 	if p.cur == nil {
 		return "", false
 	}
+	for _, ds := range fn.Defs().sites[obj] {
+		if ds.kind == "opassign" {
+			return "", false // loop counters and accumulators keep their name
+		}
+	}
 	info := fn.Info()
 	u := p.useIndex(fn, id)
 	evs := p.cur.path.Events
@@ -275,8 +280,8 @@ func (p *Program) pathDef(fn *Func, id *ast.Ident, obj types.Object, depth int) 
 	}
 	for j := u - 1; j >= 0; j-- {
 		ev := evs[j]
-		if ev.Fn != fn || ev.Kind != EvAssign {
-			continue
+		if ev.Kind != EvAssign || !fn.rootIs(ev.Fn) {
+			continue // (the variable may belong to an enclosing function of a literal)
 		}
 		if ev.Tok != token.ASSIGN && ev.Tok != token.DEFINE {
 			continue
@@ -284,13 +289,13 @@ func (p *Program) pathDef(fn *Func, id *ast.Ident, obj types.Object, depth int) 
 		for k, l := range ev.Lhs {
 			if isObj(l) {
 				if len(ev.Rhs) == len(ev.Lhs) {
-					return p.canon(fn, ev.Rhs[k], depth+1), true
+					return p.canon(ev.Fn, ev.Rhs[k], depth+1), true
 				}
 				if len(ev.Rhs) == 1 {
-					if res, rfn, ok := p.inlinedResults(fn, ev.Rhs[0]); ok && k < len(res) {
+					if res, rfn, ok := p.inlinedResults(ev.Fn, ev.Rhs[0]); ok && k < len(res) {
 						return p.canon(rfn, res[k], depth+1), true
 					}
-					s := p.canon(fn, ev.Rhs[0], depth+1)
+					s := p.canon(ev.Fn, ev.Rhs[0], depth+1)
 					if _, isIdx := ast.Unparen(ev.Rhs[0]).(*ast.IndexExpr); isIdx && k == 0 {
 						return s, true
 					}
@@ -305,7 +310,7 @@ func (p *Program) pathDef(fn *Func, id *ast.Ident, obj types.Object, depth int) 
 					if _, isIdx := ast.Unparen(ev.Lhs[k]).(*ast.IndexExpr); isIdx {
 						switch obj.Type().Underlying().(type) {
 						case *types.Map, *types.Slice, *types.Pointer:
-							return p.canon(fn, ev.Lhs[k], depth+1), true // stored into a slot: denotes that slot from now on
+							return p.canon(ev.Fn, ev.Lhs[k], depth+1), true // stored into a slot: denotes that slot from now on
 						}
 					}
 				}
